@@ -890,7 +890,9 @@ pub fn step(op: &Op) -> OpResult {
         w.nonrequired_in_flight = false;
         w.deferred_required.clear();
         w.ops_applied.push(op.clone());
-        w.ev(Ev::OpCall(w.op_idx, op.to_string()));
+        if !w.cfg.light {
+            w.ev(Ev::OpCall(w.op_idx, op.to_string()));
+        }
     });
     let r = catch_unwind(AssertUnwindSafe(|| exec(op)));
     alloc::restore(false);
@@ -905,7 +907,11 @@ pub fn step(op: &Op) -> OpResult {
         }
         Ok(Err(why)) => {
             res.applied = false;
-            world::with(|w| w.ev(Ev::Note(format!("op not applicable: {}", why))));
+            world::with(|w| {
+                if !w.cfg.light {
+                    w.ev(Ev::Note(format!("op not applicable: {}", why)))
+                }
+            });
         }
         Err(payload) => {
             res.panicked = true;
@@ -941,8 +947,10 @@ pub fn step(op: &Op) -> OpResult {
             d = mix(d, 0x1000 + x as u64);
         }
         w.digest = d;
-        w.ev(Ev::OpRet(w.op_idx, format!("destroyed={:?}", w.op_destroyed)));
-        w.stop
+        if !w.cfg.light {
+            w.ev(Ev::OpRet(w.op_idx, format!("destroyed={:?}", w.op_destroyed)));
+        }
+        w.stop || (w.op_idx % w.cfg.sweep_every.max(1) != 0)
     });
     if !stop {
         sweep();
